@@ -19,6 +19,7 @@ type Enc struct {
 	quiet int
 	usesRunEnd bool
 	usesCnt    bool
+	usesDv     bool
 	cntSeen    map[string]bool
 }
 
@@ -108,6 +109,9 @@ func (o *Obligation) Query(prelude string) string {
 	}
 	if o.enc.usesCnt {
 		b.WriteString(CntAxioms)
+	}
+	if o.enc.usesDv {
+		b.WriteString(DvAxioms)
 	}
 	for _, l := range o.enc.lines[:o.At] {
 		b.WriteString(l)
@@ -215,3 +219,42 @@ var CntLemmaProofs = map[string]string{
 `,
 }
 
+
+// DvAxioms: dvA(m, a, h) is the decimal value of the bytes m[a..h) (non-digits count as 0), by recursion on h:
+// dvA(m,a,h) = 0 if h <= a, else 10*dvA(m,a,h-1) + digit(m[h-1]). The engine asserts the one-step unfolding for
+// every term used; non-negativity and monotonicity are lemmas (proved by induction in every check that uses dv).
+const DvAxioms = `(define-fun dclamp ((c Int)) Int (ite (and (<= 48 c) (<= c 57)) (- c 48) 0))
+(declare-fun dvA ((Array Int Int) Int Int) Int)
+(assert (forall ((m (Array Int Int)) (a Int) (h Int)) (! (and (<= 0 (dvA m a h)) (=> (<= h a) (= (dvA m a h) 0))) :pattern ((dvA m a h)))))
+(assert (forall ((m (Array Int Int)) (a Int) (k Int) (h Int)) (! (=> (<= k h) (<= (dvA m a k) (dvA m a h))) :pattern ((dvA m a k) (dvA m a h)))))
+`
+
+var DvLemmaProofs = map[string]string{
+	"lemma:dv-nonneg/step": `(define-fun dclamp ((c Int)) Int (ite (and (<= 48 c) (<= c 57)) (- c 48) 0))
+(declare-fun dvA ((Array Int Int) Int Int) Int)
+(assert (forall ((m (Array Int Int)) (a Int) (h Int)) (! (= (dvA m a h) (ite (<= h a) 0 (+ (* 10 (dvA m a (- h 1))) (dclamp (select m (- h 1)))))) :pattern ((dvA m a h)))))
+(declare-const m (Array Int Int)) (declare-const a Int) (declare-const h Int)
+(assert (<= 0 (dvA m a h)))
+(assert (not (<= 0 (dvA m a (+ h 1)))))
+(check-sat)
+`,
+	"lemma:dv-monotone/step": `(define-fun dclamp ((c Int)) Int (ite (and (<= 48 c) (<= c 57)) (- c 48) 0))
+(declare-fun dvA ((Array Int Int) Int Int) Int)
+(assert (forall ((m (Array Int Int)) (a Int) (h Int)) (! (= (dvA m a h) (ite (<= h a) 0 (+ (* 10 (dvA m a (- h 1))) (dclamp (select m (- h 1)))))) :pattern ((dvA m a h)))))
+(declare-const m (Array Int Int)) (declare-const a Int) (declare-const h Int) (declare-const k Int)
+(assert (forall ((j Int)) (<= 0 (dvA m a j))))
+(assert (forall ((j Int)) (=> (<= j h) (<= (dvA m a j) (dvA m a h)))))
+(assert (<= k (+ h 1)))
+(assert (not (<= (dvA m a k) (dvA m a (+ h 1)))))
+(check-sat)
+`,
+	"lemma:dv-monotone/base": `(define-fun dclamp ((c Int)) Int (ite (and (<= 48 c) (<= c 57)) (- c 48) 0))
+(declare-fun dvA ((Array Int Int) Int Int) Int)
+(assert (forall ((m (Array Int Int)) (a Int) (h Int)) (! (= (dvA m a h) (ite (<= h a) 0 (+ (* 10 (dvA m a (- h 1))) (dclamp (select m (- h 1)))))) :pattern ((dvA m a h)))))
+(declare-const m (Array Int Int)) (declare-const a Int) (declare-const h Int) (declare-const k Int)
+(assert (<= h a))
+(assert (<= k h))
+(assert (not (<= (dvA m a k) (dvA m a h))))
+(check-sat)
+`,
+}
